@@ -420,7 +420,7 @@ func (s *Sym) arrayLiteral(al *ssa.Alloc, at ssa.Instruction) *Term {
 				if elems[i] != nil {
 					return nil
 				}
-				elems[i] = s.Of(st.Val)
+				elems[i] = s.objAt(st.Val, st)
 			}
 		case *ssa.Slice:
 		case *ssa.DebugRef:
